@@ -4,6 +4,7 @@ import sys
 import time as _time
 import warnings
 
+from twisted.internet import task as _task
 from twisted.internet.defer import Deferred
 from twisted.internet.task import Clock, LoopingCall
 
@@ -19,6 +20,31 @@ if os.environ.get("VERIF_MODE") == "sym":
     if "crosshair" in sys.modules:
         from crosshair.statespace import StateSpace as _SS
         _SS.cap_result_at_unknown = lambda self: None
+
+
+
+def _trunc_int(x=0, *a):
+    # int(x) for numbers == x.__trunc__(); CrossHair's patched int() *realises* a symbolic float (one path per
+    # value) while RealBasedSymbolicFloat.__trunc__ stays symbolic (z3 ToInt).  Validated in selftest().
+    if not a and not isinstance(x, (str, bytes, bytearray)) and hasattr(x, "__trunc__"):
+        return x.__trunc__()
+    return int(x, *a)
+
+
+if os.environ.get("VERIF_MODE") == "sym":
+    # LoopingCall._intervalOf is the only user of int() in twisted.internet.task
+    _task.int = _trunc_int
+
+
+def selftest():
+    n = 0
+    for v in (0.0, -0.0, 0.25, -0.25, 0.999, 1.0, 1.5, -1.5, 2.0, -2.0, 7.75, -7.75, 1e9 + 0.5, 3, -3, True,
+              0.1 + 0.2, 2.5 / 0.25, (1.75 - 0.5) / 0.25, "12", " 7 "):
+        assert _trunc_int(v) == int(v) and type(_trunc_int(v)) is int, v
+        n += 1
+    assert _trunc_int("ff", 16) == 255 and _trunc_int() == 0
+    return n + 2
+
 
 PROPERTY = "C10"
 LEVEL = "model_checking"
@@ -72,7 +98,7 @@ class _Trace:
 
 def _on_grid(E, S, I):
     q = (E - S) / I
-    return q == int(q)
+    return q == _trunc_int(q)
 
 
 def _loop(iv, t0, now, wc, behs, advs, fires, sop, splace):
@@ -273,18 +299,24 @@ def loop5(iv: int, t0: float, now: bool, wc: bool, b0: int, b1: int, b2: int,
     return _loop(iv, t0, now, wc, [b0, b1, b2], [a1, a2, a3, a4, a5], [f1, f2, f3, f4, f5], sop, splace)
 
 
-def _shards3(tier):
-    out = []
-    for iv in range(5):
-        for wc in ("wc", "not wc"):
-            for sop in range(3):
-                out.append(("iv == %d" % iv, wc, "sop == %d" % sop))
-    return out
+def _shards(nadv):
+    def mk(tier):
+        out = []
+        for iv in range(5):
+            I = IVS[iv]
+            # times bounded in units of the interval (keeps z3's integer reasoning about `%`/int() finite):
+            # start time <= 4 intervals, every advance <= 5 intervals
+            bnd = ["t0 <= %r" % (4 * I,)] + ["a%d <= %r" % (j + 1, 5 * I) for j in range(nadv)]
+            for wc in ("wc", "not wc"):
+                for sop in range(3):
+                    out.append(tuple(["iv == %d" % iv, wc, "sop == %d" % sop] + bnd))
+        return out
+    return mk
 
 
 HARNESSES = [
-    H(loop3, shards=_shards3, timeout={"quick": 60, "thorough": 600}),
-    H(loop5, shards=_shards3, timeout={"quick": 60, "thorough": 1500}, tiers=("thorough",)),
+    H(loop3, shards=_shards(3), timeout={"quick": 60, "thorough": 600}),
+    H(loop5, shards=_shards(5), timeout={"quick": 60, "thorough": 1500}, tiers=("thorough",)),
 ]
 
 VECTORS = {
